@@ -76,6 +76,7 @@ impl Base {
 fn small_binary_profile(max_nodes: usize) -> forest::ForestProfile {
     let mut p = binary_profile(max_nodes);
     p.max_props = 4;
+    p.narrow_numbers = false;
     p
 }
 
@@ -152,6 +153,9 @@ pub enum Mutation {
     ChunkPayloadU32(u16, u16, u32),
     ChunkPayloadByte(u16, u16, u8),
     ChunkTruncate(u16, u16),
+    /// binary container: drop the last 1..=8 bytes of a chunk's decompressed payload (trailing
+    /// arrays such as the OptionalCFrame presence flags live there), header kept consistent
+    ChunkTruncateTail(u16, u8),
     SwapChunks(u16, u16),
     DupChunk(u16),
     DropChunk(u16),
@@ -191,6 +195,7 @@ pub fn mutation_strategy() -> BoxedStrategy<Mutation> {
         5 => (p(), p(), edge()).prop_map(|(a, b, c)| Mutation::ChunkPayloadU32(a, b, c)),
         4 => (p(), p(), any::<u8>()).prop_map(|(a, b, c)| Mutation::ChunkPayloadByte(a, b, c)),
         2 => (p(), p()).prop_map(|(a, b)| Mutation::ChunkTruncate(a, b)),
+        4 => (p(), 1u8..=8).prop_map(|(a, b)| Mutation::ChunkTruncateTail(a, b)),
         1 => (p(), p()).prop_map(|(a, b)| Mutation::SwapChunks(a, b)),
         1 => p().prop_map(Mutation::DupChunk),
         1 => p().prop_map(Mutation::DropChunk),
@@ -324,6 +329,7 @@ pub fn apply_mutations(kind: Kind, base: &[u8], muts: &[Mutation], ctx: &mut Cas
             | Mutation::ChunkPayloadU32(..)
             | Mutation::ChunkPayloadByte(..)
             | Mutation::ChunkTruncate(..)
+            | Mutation::ChunkTruncateTail(..)
             | Mutation::SwapChunks(..)
             | Mutation::DupChunk(_)
             | Mutation::DropChunk(_) => {
@@ -373,6 +379,13 @@ pub fn apply_mutations(kind: Kind, base: &[u8], muts: &[Mutation], ctx: &mut Cas
                         let o = at(*off, d.len() + 1);
                         d.truncate(o);
                         ctx.label("mut:chunk_truncate");
+                    }
+                    Mutation::ChunkTruncateTail(ci, k) => {
+                        let i = at(*ci, n);
+                        let d = &mut c.chunks[i].0.data;
+                        let keep = d.len().saturating_sub(*k as usize);
+                        d.truncate(keep);
+                        ctx.label("mut:chunk_truncate_tail");
                     }
                     Mutation::SwapChunks(a, b) => {
                         let (i, j) = (at(*a, n), at(*b, n));
@@ -660,14 +673,25 @@ impl Read for Chopped<'_> {
     }
 }
 
+/// UniqueIds regenerated after a collision inside the reader's DOM (two default-filled nil ids) are
+/// random, so two decodes of one file may differ there and nowhere else.
+fn without_unique_ids(mut d: forest::CanonDom) -> forest::CanonDom {
+    let mut stack: Vec<&mut forest::CanonInst> = d.roots.iter_mut().collect();
+    while let Some(i) = stack.pop() {
+        i.props.remove("UniqueId");
+        stack.extend(i.children.iter_mut());
+    }
+    d
+}
+
 fn decode_dom(kind: Kind, r: impl Read) -> Result<Result<forest::CanonDom, String>, crate::engine::PanicInfo> {
     catch(|| match kind {
-        Kind::Binary => rbx_binary::from_reader(r).map(|d| forest::observe(&d)).map_err(|e| e.to_string()),
+        Kind::Binary => rbx_binary::from_reader(r).map(|d| without_unique_ids(forest::observe(&d))).map_err(|e| e.to_string()),
         _ => rbx_xml::from_reader(
             r,
             rbx_xml::DecodeOptions::new().property_behavior(rbx_xml::DecodePropertyBehavior::ReadUnknown),
         )
-        .map(|d| forest::observe(&d))
+        .map(|d| without_unique_ids(forest::observe(&d)))
         .map_err(|e| e.to_string()),
     })
 }
